@@ -68,8 +68,8 @@ class Oracle:
     def __init__(self, fn, choices, dead_as_live=False):
         self.fn, self.choices, self.i = fn, choices, 0
         # dead_as_live: statements after a return / break / continue in the same statement list are never executed, but the compiler
-        # analyses them as if control could fall through the jump (a dummy edge from the jumping block).  With this flag a jump that has
-        # statements after it consumes one decision: taken (what really happens) or fallen through (the compiler's reading).  Used for the
+        # analyses them as if control could fall through the jump (a dummy edge from the jumping block to whatever follows, in the same
+        # statement list or after the enclosing construct).  With this flag every jump consumes one decision: taken (what really happens) or fallen through (the compiler's reading).  Used for the
         # *witness* searches only: a rejection is justified if some path of this more liberal reading reaches the faulty read.
         self.dead_as_live = dead_as_live
         self.env = {a.arg: ast.unparse(a.annotation) for a in fn.args.args}
@@ -108,7 +108,7 @@ class Oracle:
 
     def block(self, stmts):
         for k, s in enumerate(stmts):
-            if self.dead_as_live and isinstance(s, (ast.Return, ast.Break, ast.Continue)) and k + 1 < len(stmts) and not self.cond():
+            if self.dead_as_live and isinstance(s, (ast.Return, ast.Break, ast.Continue)) and not self.cond():
                 continue        # fall through into the dead statements
             self.stmt(s)
 
